@@ -6,6 +6,9 @@ props = [json.loads(l) for l in open(os.path.join(root, "properties.jsonl"))]
 ids = [p["id"] for p in props]
 
 CHECKS = {
+ "C01": dict(cat="exploration", tech="runtime monitoring: record/replay differential - followers re-execute the recorded ABCI history in fresh processes under a skewed wall clock (time.Now overlay), other GOMAXPROCS, other node-local configuration, concurrent query load, kill/restart from disk; oracle = equality of consensus-visible traces",
+   text="Held on the executions produced: one generated history (Ethereum, precompile and Cosmos transactions of many kinds, invalid/over-gas ones, validator churn, evidence) is re-executed by N followers that differ in exactly the things the property names; app hash, per-tx code/data/gas, events, validator and consensus-param updates must be identical block by block. The wall-clock sanitizer applies to every time.Now() in the binary, dependencies included.",
+   note="Sampled on this machine/OS/Go toolchain only; the attribute Index flag and Log strings are outside the compared content; history generator aimed at the anchored non-determinism sources (vesting-expiry test, touched-map iteration, validator choice).", ref="§4 C01"),
  "C04": dict(cat="exploration", tech="runtime monitoring: per-transaction supply/balance ledger asserted at a tx-boundary observer hooked in front of the ante handler",
    text="Held on the executions produced: every generated Ethereum transaction (all outcome classes, fee shapes, block positions, finite and unlimited block gas) is bracketed by two full observations of x/bank (supply of every denom, all tracked balances, fee collector, EVM module account) on the real application; the oracle is the conservation law itself. Exploration is the right level: the property quantifies over transactions and contract behaviours, which only execution of the real state transition can exercise.",
    note="Trusts x/bank's own accounting and the harness' independent effective-price formula; inflation set to 0 so that only transactions move supply.", ref="§4 C04"),
